@@ -212,6 +212,7 @@ func Load(dir string, overlay map[string][]byte) (*Program, error) {
 		anonRoleCache = map[*ssa.Function]string{}
 		index()
 	}
+	detectHolders(p)
 	return p, nil
 }
 
@@ -396,67 +397,90 @@ func resolveRenames(p *Program) bool {
 // variables (see cbEnv).
 func resolveCallbacks(p *Program) bool {
 	found := false
+	parents := map[string]bool{}
 	for name := range knownFuncs {
 		i := strings.LastIndex(name, "$")
-		if i < 0 {
+		if i < 0 || strings.Contains(name[:i], "$") {
 			continue
 		}
-		if _, ok := p.funcs[name]; ok {
-			continue
+		if _, ok := p.funcs[name]; !ok {
+			parents[name[:i]] = true
 		}
-		parentName, role := name[:i], name[i+1:]
-		if strings.Contains(parentName, "$") {
-			continue
-		}
+	}
+	for parentName := range parents {
 		parent := p.funcs[parentName]
 		if parent == nil || parent.Blocks == nil {
 			continue
 		}
-		var cands []*ssa.Function
-		for _, b := range parent.Blocks {
-			for _, in := range b.Instrs {
-				call, ok := in.(*ssa.Call)
-				if !ok || roleOfCallee(&call.Call) != role {
+		// the same numbering as anonRole: the n-th function in a role is
+		// "role", "role2", ... whether it is a closure or a method value
+		count := map[string]int{}
+		closureOf := func(v ssa.Value) bool {
+			for {
+				if ct, ok := v.(*ssa.ChangeType); ok {
+					v = ct.X
 					continue
 				}
-				for _, a := range call.Call.Args {
-					if m := callbackTarget(p.SSA, a); m != nil {
-						cands = append(cands, m)
+				break
+			}
+			if mc, ok := v.(*ssa.MakeClosure); ok {
+				f, _ := mc.Fn.(*ssa.Function)
+				return f != nil && f.Parent() == parent
+			}
+			return false
+		}
+		consider := func(base string, m *ssa.Function) {
+			count[base]++
+			role := base
+			if count[base] > 1 {
+				role = fmt.Sprintf("%s%d", base, count[base])
+			}
+			name := parentName + "$" + role
+			if _, isKnown := knownFuncs[name]; !isKnown {
+				return
+			}
+			if _, exists := p.funcs[name]; exists {
+				return
+			}
+			if _, known := knownFuncs[QualName(m)]; known || !strings.HasPrefix(fnPkgPath(m), modPath) {
+				return
+			}
+			if _, done := funcAlias[m]; done {
+				return
+			}
+			funcAlias[m] = name
+			found = true
+			registerEnv(p, parent, m)
+		}
+		for _, b := range parent.Blocks {
+			for _, in := range b.Instrs {
+				switch x := in.(type) {
+				case *ssa.Go:
+					if closureOf(x.Call.Value) {
+						count["go"]++
+					} else if m := x.Call.StaticCallee(); m != nil && m.Parent() == nil && m.Synthetic == "" {
+						if _, known := knownFuncs[QualName(m)]; !known && strings.HasPrefix(fnPkgPath(m), modPath) {
+							consider("go", m)
+						}
 					}
-				}
-			}
-		}
-		if len(cands) != 1 {
-			continue
-		}
-		m := cands[0]
-		if _, known := knownFuncs[QualName(m)]; known {
-			continue
-		}
-		if !strings.HasPrefix(fnPkgPath(m), modPath) {
-			continue
-		}
-		funcAlias[m] = name
-		found = true
-		// a method: its receiver's struct is the callback's environment
-		if m.Signature != nil && m.Signature.Recv() != nil {
-			t := m.Signature.Recv().Type()
-			ptr := false
-			if pt, ok := t.(*types.Pointer); ok {
-				t, ptr = pt.Elem(), true
-			}
-			if n, ok := t.(*types.Named); ok {
-				if stt, ok := n.Underlying().(*types.Struct); ok {
-					envMethods[m] = &envInfo{parent: parent, named: n, st: stt, ptrRecv: ptr}
-					envStructs[n.Obj()] = true
-					// the parent's variable(s) bound as the receiver
-					for _, b := range parent.Blocks {
-						for _, in := range b.Instrs {
-							if mc, ok := in.(*ssa.MakeClosure); ok && len(mc.Bindings) == 1 && callbackTarget(p.SSA, mc) == m {
-								if al, ok := mc.Bindings[0].(*ssa.Alloc); ok {
-									envAllocs[al] = true
-								}
-							}
+				case *ssa.Defer:
+					if closureOf(x.Call.Value) {
+						count["defer"]++
+					} else if m := x.Call.StaticCallee(); m != nil && m.Parent() == nil && m.Synthetic == "" {
+						if _, known := knownFuncs[QualName(m)]; !known && strings.HasPrefix(fnPkgPath(m), modPath) {
+							consider("defer", m)
+						}
+					}
+				case *ssa.Call:
+					base := roleOfCallee(&x.Call)
+					if base == "" {
+						continue
+					}
+					for _, a := range x.Call.Args {
+						if closureOf(a) {
+							count[base]++
+						} else if m := callbackTarget(p.SSA, a); m != nil {
+							consider(base, m)
 						}
 					}
 				}
@@ -464,6 +488,123 @@ func resolveCallbacks(p *Program) bool {
 		}
 	}
 	return found
+}
+
+// registerEnv: a method that stands for a closure: its receiver's struct is
+// the callback's environment.
+func registerEnv(p *Program, parent, m *ssa.Function) {
+	if m.Signature == nil || m.Signature.Recv() == nil {
+		return
+	}
+	t := m.Signature.Recv().Type()
+	ptr := false
+	if pt, ok := t.(*types.Pointer); ok {
+		t, ptr = pt.Elem(), true
+	}
+	n, ok := t.(*types.Named)
+	if !ok {
+		return
+	}
+	stt, ok := n.Underlying().(*types.Struct)
+	if !ok {
+		return
+	}
+	// only a type introduced together with the method (a holder for what the
+	// closure captured): a type the rules already know keeps its own reading
+	if nn, _ := newStructType(n); nn == nil {
+		return
+	}
+	envMethods[m] = &envInfo{parent: parent, named: n, st: stt, ptrRecv: ptr}
+	envStructs[n.Obj()] = true
+	// the parent's variable(s) bound as the receiver
+	for _, b := range parent.Blocks {
+		for _, in := range b.Instrs {
+			switch x := in.(type) {
+			case *ssa.MakeClosure:
+				if len(x.Bindings) == 1 && callbackTarget(p.SSA, x) == m {
+					if al, ok := x.Bindings[0].(*ssa.Alloc); ok {
+						envAllocs[al] = true
+					}
+				}
+			case *ssa.Go:
+				if x.Call.StaticCallee() == m && len(x.Call.Args) > 0 {
+					if al, ok := x.Call.Args[0].(*ssa.Alloc); ok {
+						envAllocs[al] = true
+					}
+				}
+			case *ssa.Defer:
+				if x.Call.StaticCallee() == m && len(x.Call.Args) > 0 {
+					if al, ok := x.Call.Args[0].(*ssa.Alloc); ok {
+						envAllocs[al] = true
+					}
+				}
+			}
+		}
+	}
+}
+
+// newStructType: a named struct type that the functions the rules were
+// confirmed on do not mention (introduced by a later refactoring).
+func newStructType(t types.Type) (*types.Named, *types.Struct) {
+	n, ok := t.(*types.Named)
+	if !ok || n.Obj().Pkg() == nil || !strings.HasPrefix(n.Obj().Pkg().Path(), modPath) {
+		return nil, nil
+	}
+	stt, ok := n.Underlying().(*types.Struct)
+	if !ok {
+		return nil, nil
+	}
+	tn := n.Obj().Name()
+	for k, v := range knownFuncs {
+		if strings.Contains(k, "."+tn+")") || strings.Contains(k, "(*"+tn+")") || strings.Contains(v, "."+tn+",") {
+			return nil, nil
+		}
+	}
+	return n, stt
+}
+
+// holderFree: captured variables of a new struct type that bundle what used to
+// be separate captured variables (`var pos sweepPosition` instead of `last` and
+// `limitReached`): their fields read like separate captured variables, in the
+// closure ("free:<field>") and in the function that declares the variable
+// ("alloc:<field>"), as for envInfo.
+var holderFree = map[*ssa.FreeVar]*types.Struct{}
+
+func detectHolders(p *Program) {
+	for _, fn := range p.funcs {
+		if fn.Blocks == nil {
+			continue
+		}
+		for _, b := range fn.Blocks {
+			for _, in := range b.Instrs {
+				mc, ok := in.(*ssa.MakeClosure)
+				if !ok {
+					continue
+				}
+				cl, _ := mc.Fn.(*ssa.Function)
+				if cl == nil || cl.Parent() != fn {
+					continue
+				}
+				for i, bnd := range mc.Bindings {
+					al, ok := bnd.(*ssa.Alloc)
+					if !ok || i >= len(cl.FreeVars) || al.Comment == "" {
+						continue
+					}
+					pt, ok := al.Type().Underlying().(*types.Pointer)
+					if !ok {
+						continue
+					}
+					n, stt := newStructType(pt.Elem())
+					if n == nil {
+						continue
+					}
+					envStructs[n.Obj()] = true
+					envAllocs[al] = true
+					holderFree[cl.FreeVars[i]] = stt
+				}
+			}
+		}
+	}
 }
 
 // envInfo: a method that stands for a closure (resolveCallbacks). The fields
@@ -742,6 +883,8 @@ func anonRole(parent, fn *ssa.Function) string {
 				for _, a := range x.Call.Args {
 					if f := closureOf(a); f != nil && base != "" {
 						assign(f, base)
+					} else if base != "" && callbackTarget(parent.Prog, a) != nil {
+						count[base]++ // a method value in this role takes a number too (resolveCallbacks)
 					}
 				}
 			case *ssa.Store:
